@@ -16,6 +16,7 @@ pub enum SProfile {
     Amp,
     Idle,
     Flush,
+    Capacity, // a server at its limits: connections end by disconnect, drop and time-out (a peer vanishes for good) while others keep asking
 }
 
 pub fn sprofile_from(s: &str) -> SProfile {
@@ -25,6 +26,7 @@ pub fn sprofile_from(s: &str) -> SProfile {
         "amp" => SProfile::Amp,
         "idle" => SProfile::Idle,
         "flush" => SProfile::Flush,
+        "capacity" => SProfile::Capacity,
         _ => SProfile::Handshake,
     }
 }
@@ -35,13 +37,14 @@ fn ep_cfg(r: &mut Rng, prof: SProfile) -> EndpointConfig {
         SProfile::Idle => *r.pick(&[8000u64, 12000, 20000, 60000]),
         SProfile::Timeout => *r.pick(&[1000u64, 3000, 5000, 20000, 60000]),
         SProfile::Flush => 20000,
+        SProfile::Capacity => *r.pick(&[1000u64, 3000, 5000]),
         _ => *r.pick(&[3000u64, 20000, 20000]),
     };
     c.keepalive = r.chance(2, 3) || prof == SProfile::Idle;
     c.keepalive_interval_ms = if prof == SProfile::Idle { *r.pick(&[500u64, 1000, 2000]) } else { *r.pick(&[500u64, 2000, 5000]) };
     c.max_send_rate = *r.pick(&[20_000usize, 200_000, 2_000_000]);
     c.max_receive_rate = *r.pick(&[20_000usize, 200_000, 2_000_000]);
-    if r.chance(1, 6) && prof != SProfile::Idle && prof != SProfile::Flush {
+    if r.chance(1, 6) && prof != SProfile::Idle && prof != SProfile::Flush && prof != SProfile::Capacity {
         // occasionally incompatible: packet size larger than the other side's typical allocation
         c.max_packet_size = *r.pick(&[500usize, 3000, 2_000_000]);
         c.max_receive_alloc = *r.pick(&[400usize, 3000, 1_000_000]);
@@ -73,10 +76,12 @@ pub fn run_sess(tr: &mut Trace, run: u64, seed: u64, prof: SProfile) -> SessStat
         SProfile::Amp => r.range(0, 1) as usize,
         SProfile::Timeout => r.range(1, 2) as usize,
         SProfile::Flush => r.range(1, 2) as usize,
+        SProfile::Capacity => r.range(3, 4) as usize,
         _ => r.range(1, 4) as usize,
     };
-    let max_active = if prof == SProfile::Flush { 32 } else { *r.pick(&[1usize, 1, 2, 3, 32]) };
-    let max_total = *r.pick(&[1usize, 2, 4, 4096]).max(&max_active);
+    // (capacity profile: always two clients more than the server admits - one will vanish, one keeps asking)
+    let max_active = if prof == SProfile::Flush { 32 } else if prof == SProfile::Capacity { nclients - 2 } else { *r.pick(&[1usize, 1, 2, 3, 32]) };
+    let max_total = if prof == SProfile::Capacity { *r.pick(&[max_active + 1, 4096, 4096]) } else { *r.pick(&[1usize, 2, 4, 4096]).max(&max_active) };
     let scfg_ep = ep_cfg(&mut r, prof);
     let scfg = server::Config { max_total_connections: max_total, max_active_connections: max_active, enable_handshake_errors: r.chance(1, 2), endpoint_config: scfg_ep.clone() };
     let herr = scfg.enable_handshake_errors;
@@ -95,22 +100,22 @@ pub fn run_sess(tr: &mut Trace, run: u64, seed: u64, prof: SProfile) -> SessStat
     let silent = prof == SProfile::Idle && r.chance(2, 3);
     // who submits packets: 0 both, 1 clients only, 2 server only (a pure receiver only ever sees ack / sync frames)
     let pattern = if prof == SProfile::Timeout || prof == SProfile::Life { r.below(3) } else { 0 }; // the applications never submit anything
-    let lossfree = (r.chance(1, 3) && prof != SProfile::Amp && prof != SProfile::Flush) || (prof == SProfile::Flush && r.chance(1, 6)) || prof == SProfile::Idle;
-    let p_drop: u64 = if lossfree { 0 } else if prof == SProfile::Flush { *r.pick(&[10u64, 20, 40]) } else { *r.pick(&[0u64, 10, 30, 60]) };
+    let lossfree = (r.chance(1, 3) && prof != SProfile::Amp && prof != SProfile::Flush && prof != SProfile::Capacity) || (prof == SProfile::Flush && r.chance(1, 6)) || prof == SProfile::Idle;
+    let p_drop: u64 = if lossfree { 0 } else if prof == SProfile::Flush { *r.pick(&[10u64, 20, 40]) } else if prof == SProfile::Capacity { *r.pick(&[0u64, 0, 5]) } else { *r.pick(&[0u64, 10, 30, 60]) };
     let p_dup: u64 = if lossfree { 0 } else { *r.pick(&[0u64, 10, 30]) };
     let p_forge: u64 = if lossfree || prof == SProfile::Flush { 0 } else { match prof { SProfile::Handshake => *r.pick(&[0u64, 10, 30]), SProfile::Amp => 80, _ => *r.pick(&[0u64, 0, 5]) } };
     let p_replay: u64 = if lossfree || prof == SProfile::Flush { 0 } else { *r.pick(&[0u64, 5, 20]) };
     let latency = if prof == SProfile::Idle || prof == SProfile::Flush { *r.pick(&[0u64, 10, 100]) } else { *r.pick(&[0u64, 0, 10, 100, 700]) };
     let jitter = if lossfree { 0 } else if prof == SProfile::Flush { *r.pick(&[0u64, 0, 50]) } else { *r.pick(&[0u64, 0, 50, 3000]) };
-    let cadence = if prof == SProfile::Idle || prof == SProfile::Flush { *r.pick(&[10u64, 20, 100]) } else { *r.pick(&[10u64, 20, 100, 500, 1000]) };
+    let cadence = if prof == SProfile::Idle || prof == SProfile::Flush || prof == SProfile::Capacity { *r.pick(&[10u64, 20, 100]) } else { *r.pick(&[10u64, 20, 100, 500, 1000]) };
     // steady: loss-free, evenly and frequently stepped (the premise of the keep-alive clause of C10)
     // and every time-out is well above the effective keep-alive period max(interval, 2 s, RTO)
     let steady = prof == SProfile::Idle;
-    let reconnecting = (prof == SProfile::Life || prof == SProfile::Handshake) && r.chance(1, 2);
-    let rounds = match prof { SProfile::Timeout => r.range(50, 400), SProfile::Idle => r.range(3000, 40000), SProfile::Flush => r.range(200, 450), _ => r.range(30, 250) };
+    let reconnecting = ((prof == SProfile::Life || prof == SProfile::Handshake) && r.chance(1, 2)) || prof == SProfile::Capacity;
+    let rounds = match prof { SProfile::Capacity => r.range(150, 400), SProfile::Timeout => r.range(50, 400), SProfile::Idle => r.range(3000, 40000), SProfile::Flush => r.range(200, 450), _ => r.range(30, 250) };
 
     tr.line(json!({"ev": "Reset", "run": run, "seed": seed as i64 & 0x3FFFFFFF, "driver": "sess-random", "profile": match prof {
-        SProfile::Handshake => "handshake", SProfile::Life => "life", SProfile::Timeout => "timeout", SProfile::Amp => "amp", SProfile::Idle => "idle", SProfile::Flush => "flush" },
+        SProfile::Handshake => "handshake", SProfile::Life => "life", SProfile::Timeout => "timeout", SProfile::Amp => "amp", SProfile::Idle => "idle", SProfile::Flush => "flush", SProfile::Capacity => "capacity" },
         "max_active": max_active.min(100000), "max_total": max_total.min(100000), "herr": herr, "nclients": nclients, "nraw": nraw, "lossfree": lossfree, "steady": steady,
         "server": {"timeout": scfg_ep.active_timeout_ms, "keepalive": if scfg_ep.keepalive { scfg_ep.keepalive_interval_ms as i64 } else { -1 },
                    "max_packet_size": scfg_ep.max_packet_size.min(2_000_000_000), "max_receive_alloc": scfg_ep.max_receive_alloc.min(2_000_000_000),
@@ -124,6 +129,10 @@ pub fn run_sess(tr: &mut Trace, run: u64, seed: u64, prof: SProfile) -> SessStat
         let t0 = r.below(rounds * cadence);
         blackout.push((t0, t0 + *r.pick(&[2500u64, 8000, 25000, 60000]), r.below(nclients as u64) as usize));
     }
+    // capacity profile: one peer that is connected at some point of the first half vanishes for good (chosen then): its
+    // connection can only end by time-out, while the other clients keep asking for the place it holds
+    let mut vanish_at: u64 = if prof == SProfile::Capacity { r.range(5, rounds / 3) } else { u64::MAX };
+    let mut vanish_stage = 0;
     // flush profile: per connection one side is the closer; after a warm-up with traffic in both directions it submits a
     // batch of Reliable / Persistent packets and calls disconnect() once; it submits nothing afterwards, and the other
     // side does not disconnect (in a quarter of the runs it does, later)
@@ -166,6 +175,24 @@ pub fn run_sess(tr: &mut Trace, run: u64, seed: u64, prof: SProfile) -> SessStat
         s.held = keep;
         assigned = s.held.len();
 
+        if round >= vanish_at {
+            let up: Vec<usize> = (0..nclients).filter(|&i| s.slots[i].client.as_ref().map_or(false, |c| c.is_active())
+                && s.server.as_mut().unwrap().client(&s.slots[i].relay_addr).map_or(false, |rc| rc.borrow().is_active())).collect();
+            if up.is_empty() {
+                vanish_at = round + 2;
+            } else if vanish_stage == 0 && r.chance(3, 4) {
+                // first an ordinary end: one connected client disconnects (the server keeps its entry for the linger,
+                // with a timer queued for it), the place goes to whoever asks next ...
+                let i = *r.pick(&up);
+                s.app_disconnect(tr, false, i, r.chance(1, 2));
+                vanish_stage = 1;
+                vanish_at = round + r.range(2, 12);
+            } else {
+                // ... and then a connected peer vanishes for good
+                blackout.push((now, u64::MAX / 4, *r.pick(&up)));
+                vanish_at = u64::MAX;
+            }
+        }
         // application actions
         for i in 0..nclients {
             if s.slots[i].client.is_none() && connect_at[i] <= round {
@@ -174,7 +201,8 @@ pub fn run_sess(tr: &mut Trace, run: u64, seed: u64, prof: SProfile) -> SessStat
             }
             // a client whose connection has ended connects again from the same address (a new Client object behind the
             // same relay): soon afterwards - while the server still lingers in Closed for that address - or much later
-            if reconnecting && s.slots[i].client.is_some() && s.slots[i].finished && s.slots[i].reconnects < 2 && r.chance(1, 12) {
+            let (max_rec, p_rec) = if prof == SProfile::Capacity { (10, 4) } else { (2, 12) }; // (refused clients keep asking)
+            if reconnecting && s.slots[i].client.is_some() && s.slots[i].finished && s.slots[i].reconnects < max_rec && r.chance(1, p_rec) {
                 s.slots[i].reconnects += 1;
                 s.connect(tr, i);
             }
@@ -239,11 +267,11 @@ pub fn run_sess(tr: &mut Trace, run: u64, seed: u64, prof: SProfile) -> SessStat
                     }
                 }
             }
-            let pd: u64 = match prof { SProfile::Life => 3, SProfile::Handshake => 1, _ => 0 };
+            let pd: u64 = match prof { SProfile::Life => 3, SProfile::Handshake => 1, _ => 0 }; // (capacity profile: only its scripted ends)
             if r.chance(pd, 100) {
                 s.app_disconnect(tr, r.chance(1, 2), i, r.chance(1, 3));
             }
-            if prof != SProfile::Timeout && prof != SProfile::Idle && r.chance(1, 200) {
+            if prof != SProfile::Timeout && prof != SProfile::Idle && r.chance(1, if prof == SProfile::Capacity { 1500 } else { 200 }) {
                 s.app_drop(tr, i);
             }
             if r.chance(1, 10) {
